@@ -12,7 +12,7 @@
 //   Q code              exit_group(code)
 //   D sel               load the data segment registers %ds and %es with selector sel (a program may load selectors,
 //                       e.g. 0x28 = the user data descriptor with RPL 0, that ptrace refuses to write back)
-// specials: @null @unmapped @kernel @odd @nonul<N> @edge$i @cross$i @wo$i @xo$i @how<flags>/<mode>/<resolve> @howbad @howshort
+// specials: @null @unmapped @kernel @odd @nonul<N> @edge$i @cross$i @st1$i @stm$i @stl$i @stn$i @wo$i @xo$i @how<flags>/<mode>/<resolve> @howbad @howshort
 // Built with: gcc -static -nostdlib -O1 -fno-stack-protector
 typedef unsigned long u64;
 typedef long i64;
@@ -137,6 +137,21 @@ static i64 parse_arg(const char *s, const char **end) {
       long n = slen_(src) + (cross ? 0 : 1);
       char *p = before_guard(n);
       for (long i = 0; i < n; i++) p[i] = src[i];
+      return (i64)p;
+    }
+    if (starts(s, "@st1$") || starts(s, "@stm$") || starts(s, "@stl$") || starts(s, "@stn$")) {
+      // the string straddles a page boundary, both pages readable: 1 byte / half / all but the last character / the
+      // whole text (only the terminator beyond) lies before the boundary
+      const char *src = strs[parse_int(s + 5, 0)];
+      long n = slen_(src);
+      long k = s[3] == '1' ? 1 : s[3] == 'm' ? n / 2 : s[3] == 'l' ? n - 1 : n;
+      if (k < 1) k = 1;
+      if (k > n) k = n;
+      char *m = (char *)sc6(NR_mmap, 0, 3 * 4096, 3, 0x22, -1, 0);
+      char *p = m + 4096 - k;
+      for (long i = 0; i <= n; i++) p[i] = src[i];
+      // what a reader that loses its place would pick up instead of the rest of the name
+      for (long i = 0; i < 64; i++) m[4096 + n + 1 + i] = "x/../a/b"[i % 8];
       return (i64)p;
     }
     if (starts(s, "@wo$") || starts(s, "@xo$")) {
